@@ -118,6 +118,8 @@ class Loader:
                         except ImportError: pass
                 return m
             return self.load(top) if level == 0 else m
+        if full == 'math':
+            return _math_shim()
         if top in ('bae',):
             raise ImportError(f"optional backend {top} not available")
         return importlib.__import__(name, globals, locals, fromlist, level)
@@ -224,3 +226,32 @@ def _tree_map(f, x):
 
 def _functional_call(model, params_and_buffers, args, kwargs=None):
     raise storch.EngineGap("functional_call is not modelled (modjac is stubbed by contract)")
+
+
+_MATH = None
+def _math_shim():
+    """`math` with exp/log/sqrt/log2 lifted to exact scalars (Fraction / Frac arguments give atoms)"""
+    global _MATH
+    if _MATH is not None: return _MATH
+    import math as _m, types as _t
+    from . import atoms as AT
+    from .algebra import Frac
+    m = _t.ModuleType('math')
+    m.__dict__.update({k: v for k, v in vars(_m).items() if not k.startswith('__')})
+    def lift(name, f):
+        real = getattr(_m, name)
+        def g(x, *a):
+            if isinstance(x, (Q, Frac)) or (isinstance(x, storch.Tensor)):
+                v = x.item() if isinstance(x, storch.Tensor) else x
+                r = f(Frac.of(v))
+                return r
+            return real(x, *a)
+        return g
+    m.exp = lift('exp', AT.exp); m.log = lift('log', AT.log); m.sqrt = lift('sqrt', AT.sqrt)
+    m.atan = lift('atan', AT.atan); m.sin = lift('sin', AT.sin); m.cos = lift('cos', AT.cos)
+    def log2(x):
+        if isinstance(x, Frac) and x.is_const(): x = x.cval()
+        return _m.log2(x)
+    m.log2 = log2
+    _MATH = m
+    return m
